@@ -61,13 +61,33 @@ def make_case(cid, rng, mode):
         for what, seq in DUMPKEYS.items():
             binds.append({"km": km, "seq": seq.hex(), "act": "dump-" + what, "macro": False})
     sess = []
+    order = []
     for what, seq in DUMPKEYS.items():
         if mode == "vi":
             sess.append([SETUP_KEY, keys(b"2"), keys(seq), {"k": "gate"}])
         else:
             sess.append([keys(b"\x1b2"), keys(seq), {"k": "gate"}])
+        order.append(what)
+    # then the application changes binds WITHOUT changing their number (a bound sequence goes to another command, a macro gets
+    # another body) and the same dumps are asked for again, on the same Shell
+    km_dump = "emacs" if mode == "emacs" else "vi-command"
+    mine = [b for b in binds if b["km"] == km_dump and not b["act"].startswith("dump-")]
+    reb = []
+    for b in rng.sample(mine, min(len(mine), 3)):
+        if b["macro"]:
+            reb.append({"k": "rebind", "s": "%s|%s" % (km_dump, rng.choice(["other body", "x%y", "q"])), "h": b["seq"], "n": 1})
+        else:
+            reb.append({"k": "rebind", "s": "%s|%s" % (km_dump, rng.choice([c for c in CMD_POOL if c != b["act"]])), "h": b["seq"], "n": 0})
+    for what in ("functions", "macros"):
+        seq = DUMPKEYS[what]
+        pre = reb if what == "functions" else []
+        if mode == "vi":
+            sess.append(pre + [SETUP_KEY, keys(b"2"), keys(seq), {"k": "gate"}])
+        else:
+            sess.append(pre + [keys(b"\x1b2"), keys(seq), {"k": "gate"}])
+        order.append(what)
     return {"id": cid, "inputrc": gen_inputrc(rng, mode), "w": 200, "h": 50, "prompt": "> ", "binds": binds, "rawout": True,
-            "dumpcfg": True, "sessions": sess, "mode": mode, "setups": [setup("", 0, "vi-command")] * 3}
+            "dumpcfg": True, "sessions": sess, "mode": mode, "setups": [setup("", 0, "vi-command")] * len(sess), "order": order}
 
 
 def canon(typ, val):
@@ -80,9 +100,13 @@ def extract(evs, what_order=("functions", "macros", "variables")):
     """per session: the text printed by the dump command (raw bytes between the command's wait events)"""
     out = {}
     cfg = None
+    cfgs = []
     for e in evs:
         if e["ev"] == "config":
-            cfg = e
+            cfgs.append(e)
+            if cfg is None:
+                cfg = e
+    extract.cfgs = cfgs
     sess_raw = {}
     for e in evs:
         if e["ev"] == "wait" and "raw" in e:
@@ -109,15 +133,18 @@ def run_dumps(rep, tier, seed, wd):
     cases = [make_case("d%d" % i, rng, "vi" if i % 3 == 2 else "emacs") for i in range(n)]
     by = run_harness("session", cases, os.path.join(wd, "dumprun"))
     parse_cases, expect = [], {}
-    order = ["functions", "macros", "variables"]
     for c in cases:
+        order = c.get("order", ["functions", "macros", "variables"])
         evs = by.get(c["id"], [])
         bad = [e for e in evs if e["ev"] in ("panic", "hang", "died", "linger")]
-        cfg, texts, mains = extract(evs)
-        if bad or cfg is None:
+        cfg0, texts, mains = extract(evs)
+        cfgs = list(extract.cfgs)
+        if bad or cfg0 is None:
             raise Infra("dump session %s did not run cleanly: %s" % (c["id"], [b["ev"] for b in bad]))
-        commands = set(cfg["commands"])
         for s, what in enumerate(order):
+            # the configuration in force when this dump ran: the last one logged up to this call
+            cfg = [x for x in cfgs if x.get("s", -1) <= s][-1]
+            commands = set(cfg["commands"])
             main = mains.get(s)
             lines = texts.get(s, [])
             if main is None:
@@ -134,7 +161,7 @@ def run_dumps(rep, tier, seed, wd):
                 keep = [ln for ln in lines if ln.startswith(b"set ")]
                 # `set keymap` is consumed by the parser itself (it selects the keymap of later binds)
                 exp = [(k, canon(t, v), False) for k, (t, v) in cfg["vars"].items() if k != "keymap"]
-            pid = "%s.%s" % (c["id"], what)
+            pid = "%s.%d.%s" % (c["id"], s, what)
             parse_cases.append({"id": pid, "main": (b"\n".join(keep) + b"\n").hex(), "mode": "", "default": True, "timems": 10000})
             expect[pid] = (what, exp, b"\n".join(keep).decode("utf-8", "replace"), c)
     pby = run_harness("parse", parse_cases, os.path.join(wd, "dumpparse"), nproc=4)
